@@ -105,7 +105,25 @@ __CPROVER_ensures((vf_gf < __CPROVER_old(v->size) && vf_gf < n) ==>
                    __CPROVER_pointer_equals(v->data[vf_gf]._analogs, __CPROVER_old(v->data[vf_gf < v->size ? vf_gf : 0]._analogs))))
 __CPROVER_ensures((vf_gf >= __CPROVER_old(v->size) && vf_gf < n) ==>
                   (__CPROVER_is_fresh(v->data[vf_gf]._points, sizeof(struct Points)) && v->data[vf_gf]._points->_points.size == 0 &&
-                   __CPROVER_is_fresh(v->data[vf_gf]._analogs, sizeof(struct Analogs)) && v->data[vf_gf]._analogs->_subframe.size == 0));
+                   __CPROVER_is_fresh(v->data[vf_gf]._analogs, sizeof(struct Analogs)) && v->data[vf_gf]._analogs->_subframe.size == 0))
+__CPROVER_ensures((vf_gf2 >= __CPROVER_old(v->size) && vf_gf2 < n && vf_gf2 != vf_gf) ==>
+                  (__CPROVER_is_fresh(v->data[vf_gf2]._points, sizeof(struct Points)) && v->data[vf_gf2]._points->_points.size == 0 &&
+                   __CPROVER_is_fresh(v->data[vf_gf2]._analogs, sizeof(struct Analogs)) && v->data[vf_gf2]._analogs->_subframe.size == 0));
+
+/* resize(n, x): new elements are copies of x - for Frame, copies of its two handles */
+void contract_vf_vec_Frame_resize_fill(vf_vec_Frame *v, size_t n, const struct Frame *x)
+__CPROVER_requires(n <= VF_MAXN && v->size <= VF_MAXN && __CPROVER_rw_ok(v, sizeof(*v)) && __CPROVER_r_ok(v->data, VF_VEC_BYTES(*v, struct Frame)) &&
+                   __CPROVER_r_ok(x, sizeof(*x)))
+__CPROVER_assigns(v->data, v->size)
+__CPROVER_frees(v->data)
+__CPROVER_ensures(v->size == n)
+__CPROVER_ensures(n > __CPROVER_old(v->size) ==> __CPROVER_is_fresh(v->data, n * sizeof(struct Frame)))
+__CPROVER_ensures(n <= __CPROVER_old(v->size) ==> __CPROVER_pointer_equals(v->data, __CPROVER_old(v->data)))
+__CPROVER_ensures((vf_gf < __CPROVER_old(v->size) && vf_gf < n) ==>
+                  (__CPROVER_pointer_equals(v->data[vf_gf]._points, __CPROVER_old(v->data[vf_gf < v->size ? vf_gf : 0]._points)) &&
+                   __CPROVER_pointer_equals(v->data[vf_gf]._analogs, __CPROVER_old(v->data[vf_gf < v->size ? vf_gf : 0]._analogs))))
+__CPROVER_ensures((vf_gf >= __CPROVER_old(v->size) && vf_gf < n) ==> VF_FRAME_SAME(v->data[vf_gf], *x))
+__CPROVER_ensures((vf_gf2 >= __CPROVER_old(v->size) && vf_gf2 < n && vf_gf2 != vf_gf) ==> VF_FRAME_SAME(v->data[vf_gf2], *x));
 
 
 /* ---------------------------------------------------------------- vector<int> / vector<float> copy assignment */
@@ -128,7 +146,7 @@ __CPROVER_ensures(vf_gv < o->size ==> VF_FBITS(v->data[vf_gv]) == VF_FBITS(o->da
 
 /* ---------------------------------------------------------------- input stream (weak precondition: any state) */
 #define VF_ISTREAM_OK(f) (__CPROVER_rw_ok(f, sizeof(*(f))) && (f)->len <= VF_MAXFILE && __CPROVER_r_ok((f)->buf, (f)->len ? (f)->len : 1) && \
-                          (f)->pos <= (long)VF_MAXFILE + 0x100000000L)
+                          (f)->pos <= 0x10000000000L)
 #define VF_AVAIL(f) (((f)->is_open && (f)->pos >= 0 && (size_t)(f)->pos < (f)->len) ? (f)->len - (size_t)(f)->pos : (size_t)0)
 /* bytes available at the *entry* position (read() changes neither len nor is_open; __CPROVER_old cannot hold a ?:) */
 #define VF_AVAIL_OLD(f) (((f)->is_open && __CPROVER_old((f)->pos) >= 0 && (size_t)__CPROVER_old((f)->pos) < (f)->len) ? (f)->len - (size_t)__CPROVER_old((f)->pos) : (size_t)0)
